@@ -153,6 +153,7 @@ Proof.
   rewrite Hdt, dtype_eqb_refl. cbn [guard rbind].
   (* axes *)
   unfold validate_axes. destruct (md_axes md') as [axes|] eqn:Eax; [|reflexivity].
+  destruct axes as [|ax0 axr]; [reflexivity|]. set (axes := ax0 :: axr) in *.
   destruct (Hax axes Eax) as [ps [Hps Hall]]. subst nps.
   unfold expect_group. rewrite Hgn. unfold grp_node at 1. cbn [rbind].
   unfold get at 1. cbn [children alookup]. change (String.eqb path_PROPS path_IDS) with false. cbn [alookup].
